@@ -164,13 +164,19 @@ impl MqttState {
             pending.push(Request::Publish(publish));
         }
 
-        // remove packed ids of incoming qos2 publishes
-        self.incoming_pub.clear();
+        // incoming qos2 publishes which aren't released yet belong to the session: the
+        // broker of a resumed session sends their PUBREL again. They are forgotten when
+        // the broker reports that it has no session (`forget_incoming`)
 
         self.await_pingresp = false;
         self.collision_ping_count = 0;
         self.inflight = 0;
         pending
+    }
+
+    /// Forgets the incoming qos2 publishes of a session which the broker doesn't have
+    pub(crate) fn forget_incoming(&mut self) {
+        self.incoming_pub.clear();
     }
 
     pub fn inflight(&self) -> u16 {
